@@ -123,10 +123,11 @@ def gen_specs(ctx, baseline):
 def run_specs(ctx, binary, specs, name):
     built = [dataq.make_scenario(s) for s in specs]
     results = session.run_sessions(ctx, binary, [b[0] for b in built], keep=True)
-    mlines, meta = [], []
+    mlines, meta, streams_of = [], [], {}
     for si, (spec, (sc, plan, txs), r) in enumerate(zip(specs, built, results)):
         wins = dataq.parse_windows(r.dir)
         streams = dataq.streams_after_data(sc)
+        streams_of[si] = streams
         hi = 0
         for k, w in enumerate(wins):
             hand = None
@@ -152,7 +153,7 @@ def run_specs(ctx, binary, specs, name):
         paylen = len(tx.payload) if tx is not None and tx.payload is not None else 0
         qq = spec.get('qq') or []
         reads_all = (qq[k].split()[:2] == ['all', 'all']) if k < len(qq) else True
-        d = dataq.compare_window(w, m, paylen, hand, None, reads_all)
+        d = dataq.compare_window(w, m, paylen, hand, dataq.expected_rest(streams_of[si][k], paylen) if k < len(streams_of[si]) else None, reads_all)
         ctx.cov['evaluations'] += 1
         if d:
             dis.append((case, 'tx %d: %s' % (k, d), mo[:160]))
